@@ -63,6 +63,17 @@ def stepStore (st : Store) (line : String) : Store × String :=
       | some x => (st, toHex x)
       | none => (st, "bad-op")
     | none => (st, "bad-op")
+  | ["fmt", k, al, fl, w, p] =>
+    -- `format!("{:<fill><align><w>.<p>}", st[k])`; `-` = absent
+    let num (x : String) : Option (Option Nat) := if x == "-" then some none else x.toNat?.map some
+    match k.toNat?, num w, num p with
+    | some k, some w, some p =>
+      match st[k]?, (match al with | "l" => some Align.left | "r" => some Align.right | "c" => some Align.center | "d" => some Align.left | _ => none),
+            (match fl with | "s" => some 0x20 | "x" => some 0x2a | _ => none) with
+      | some x, some a, some f =>
+        if (w.getD 0) ≤ 64 ∧ (p.getD 0) ≤ 64 ∧ !(al == "d" && fl == "x") then (st, toHex (fmtPad x w p a f)) else (st, "bad-op")
+      | _, _, _ => (st, "bad-op")
+    | _, _, _ => (st, "bad-op")
   | ["boundary", k, i] => match k.toNat?, i.toNat? with
     | some k, some i => match st[k]? with
       | some x => (st, if isBoundary x i then "1" else "0")
